@@ -200,11 +200,11 @@ def findlinestarts(code, dup_lines=False, unsigned_deltas=False):
                         yield offset, lineno
                         lastlineno = lineno
                         pass
+                    offset += byte_incr
                     if offset >= bytecode_len:
                         # The rest of the ``lnotab byte offsets are past the end of
                         # the bytecode; any line numbers for these have been removed.
                         return
-                    offset += byte_incr
                     pass
                 if line_delta >= 0x80 and not unsigned_deltas:
                     # Since 3.6, line_deltas is an array of 8-bit *signed* integers
